@@ -47,7 +47,23 @@ FIXED = [
 
 _GIT_NEG_TREE = {"B": {"t": "d", "ch": {"a.log": {"t": "f", "c": ""}, "b.log": {"t": "f", "c": ""}}}, "a.log": {"t": "f", "c": ""}, "c.txt": {"t": "f", "c": ""}}
 
+FIXED += [
+    ("C11", "e415ac9", "the documented word operators eeq, ene, notrx, notlike were not recognised by the lexer (`name notlike '%.txt'` was a parse error)", ["word-operators", "eeq-notrx"]),
+    ("C11", "0bb8203", "`BETWEEN` (and the root option `RX`) in upper case was compared case-sensitively by the parser and became an operator that never matches", []),
+    ("C11", "8089789", "functions without arguments written without `()` only worked at the very end of the query: `where has_caps or size > 1` lost the `or`, `select has_caps from .` lost the `from`, `curdate` / `current_user` without brackets were rejected", ["curdate-without-brackets", "boolean-function-without-brackets"]),
+    ("C11", "357dfa6", "a query passed as one argument that contains `version`, `help` or `nocolor` (e.g. the column exif_version) was taken for a command-line switch, unlike the same query split into words", []),
+    ("C11", "faf3d4b", "the documented root option `regexp` was rejected (only its synonym `rx` was recognised after lexing)", []),
+]
+
 OPEN = [
+    {"id": "K02", "property": "C11", "signature": "C11/split/root-word-shares-argument",
+     "what": "argument splitting: when the query is split into several shell words and a search-root word shares its word with tokens "
+             "that follow it (`fselect name from 'sub depth 1'`, `from 'a/b, d'`), the whole rest of the word is taken as the path: "
+             "the lexer deliberately lets a root run to the end of its argument so that unquoted paths with spaces work - a "
+             "design decision, not a small repair",
+     "pinned_case": {"toks": ["name", "from", "sub", "depth", "1", "where", "size", ">", "1"], "probe_known": True,
+                     "renderings": [{"kind": "split/subset", "argv": ["name", "from", "sub depth 1", "where size > 1"]},
+                                    {"kind": "split/subset", "argv": ["name from", "sub depth 1 where size > 1"]}]}},
     {"id": "K01", "property": "C20", "signature": "C20/git/over-ignore/negation-after-dir-pattern",
      "what": "gitignore: a negated pattern without a slash (`!a.log`) that follows a directory-prefixed pattern (`B/*.log`) does not "
              "re-include `B/a.log` although `git check-ignore` does: the verdict comes from libgit2 (git2 crate), whose "
